@@ -116,6 +116,12 @@ fn extra_letters() -> Vec<Letter> {
         Letter::one(u(Some(0), "NEPB", "GASNATURAL", &k(&[1, 0]))),
         Letter::one(u(Some(0), "ACS", "TERMOSOLAR", &k(&[1, 3]))),
         Letter::one(p(Some(0), "TERMOSOLAR", &k(&[3, 3]))),
+        // declared sources that produce nothing, systems that only serve non-EPB uses (their auxiliaries stay non-EPB)
+        Letter::one(p(Some(0), "EL_INSITU", &k(&[0, 0]))),
+        Letter::many(vec![p(Some(8), "EL_COGEN", &k(&[0, 0])), u(Some(8), "COGEN", "GASNATURAL", &k(&[0, 0]))]),
+        Letter::one(p(Some(1), "EAMBIENTE", &k(&[0, 0]))),
+        Letter::many(vec![u(Some(6), "NEPB", "GASNATURAL", &k(&[3, 3])), a(Some(6), &k(&[1, 1]))]),
+        Letter::many(vec![u(Some(6), "NEPB", "EAMBIENTE", &k(&[1, 0])), a(Some(6), &k(&[0, 1]))]),
     ]
 }
 
